@@ -90,6 +90,11 @@ def x_call(rng):
     hi = rng.choice([0x00, 0xFF])
     return bytes([0xE8, rng.below(256), rng.below(256), hi, hi])
 
+def x_tail_jmp(rng):
+    """the forms a tail call takes: jmp rel32, jmp rel8, jmp [rip+disp32], jmp rax"""
+    return rng.choice([bytes([0xE9, rng.below(256), rng.below(256), 0, 0]), bytes([0xEB, rng.below(128)]),
+                       bytes([0xFF, 0x25, rng.below(256), rng.below(256), 0, 0]), bytes([0xFF, 0xE0])])
+
 def x_body(f, rng, ncalls):
     for _ in range(ncalls):
         for _ in range(rng.range(0, 3)):
@@ -133,7 +138,10 @@ def make_x86(rng, name, shape=None, force_saved=None):
         for r in reversed(saved):
             f.emit(I("pop", r), "epilogue", x_pop(r))
         f.emit(I("pop", RBP), "epilogue", x_pop(RBP))
-        f.emit(I("ret"), "epilogue", X_RET)
+        if rng.chance(4, 5):
+            f.emit(I("ret"), "epilogue", X_RET)
+        else:
+            f.emit(I("jmp"), "epilogue", x_tail_jmp(rng))      # tail call after the frame has been torn down
         f.saved, f.alloc, f.frame = saved, alloc, True
         if shape == "frame":
             regs = 0
@@ -174,7 +182,7 @@ def make_x86(rng, name, shape=None, force_saved=None):
     if rng.chance(3, 4):
         f.emit(I("ret"), "epilogue", X_RET)
     else:
-        f.emit(I("jmp"), "epilogue", bytes([0xE9, rng.below(256), rng.below(256), 0, 0]))      # tail call
+        f.emit(I("jmp"), "epilogue", x_tail_jmp(rng))      # tail call
     stack_size = alloc + 8 * (len(saved) + 1)
     pop_order = [CU_X86[r] for r in reversed(saved)]
     if shape == "dwarf-frameless":
